@@ -399,6 +399,11 @@ func Exec(scn Scn) string {
 		case "delete":
 			if st.Orphan {
 				y.env.Store.Mutate(y.setKey(st.Set), func(u *unstructured.Unstructured) {
+					for _, f := range u.GetFinalizers() {
+						if f == "orphan" {
+							return
+						}
+					}
 					u.SetFinalizers(append(u.GetFinalizers(), "orphan"))
 				})
 			}
